@@ -97,6 +97,24 @@ def make_cases(ctx):
     for cmd in ("magic-numbers", "improper-logging", "file-header"):
         cases.append({"kind": "lint", "files": simple, "argv": [cmd], "targets": ["."], "id": "surrogate-simple:%s" % cmd,
                       "text_unparsable_names": True})
+    # unparsable sources: whatever is reported about them must still be well-formed in every rendering
+    broken = {
+        "bad/nul.py": 'def f(a):\n    s = "a\x00b"\n    return s * 4217\n',
+        "bad/unclosed.py": "def f(a:\n    return a * 4217\n",
+        "bad/indent.py": "def f(a):\n        x = 1\n    return x * 4217\n",
+        "bad/tabs.py": "def f(a):\n\tif a:\n        return 1\n\treturn 4217\n",
+        "bad/string.py": "def f(a):\n    return 'unterminated\n",
+        "bad/parens.py": "x = " + "(" * 300 + "1" + ")" * 300 + "\n",
+        "bad/latin1.py": b"def f(a):\n    return '\xe9\xff' * 4217\n",
+        "bad/empty.py": "",
+        "bad/only_bom.py": b"\xef\xbb\xbf",
+        "bad/broken.ts": "export function f(a: number { return a * 4217;\n",
+        "bad/nul.ts": "export function f(a: number) { return a * 4217; }\x00\n",
+        "bad/broken.rs": "pub fn f(a: i32 -> i32 { a * 4217\n",
+        "bad/ok.py": "def ok(a):\n    print(a)\n    return a * 4219\n",
+    }
+    for cmd in triggers.CMDS:
+        cases.append({"kind": "lint", "files": broken, "argv": [cmd], "targets": ["."], "id": "unparsable:%s" % cmd})
     # DRY with many locations (long message)
     many = {}
     body = "".join("    v%d = a + %d\n" % (k, k) for k in range(6))
